@@ -99,11 +99,30 @@ func c13Window(c *Ctx, m *searchModel) {
 		r.Check(bad == "", "R13-window", cons, c.pos(fn.Pos()), "", bad)
 	}
 	// depth 0: the leaf search receives the current window
-	ab := c.P.Func("pkg/search", "runAlphaBeta", "search")
+	// role-based anchor: the recursive, windowed search function that hands depth-0 nodes to a
+	// QuietSearch (directly or through a helper method of the same run object)
+	var ab *ssa.Function
+	for _, fn := range recursiveSearchFuncs(c, m) {
+		a, _, _ := scoreParams(fn)
+		if a == "" {
+			continue
+		}
+		fam := append([]*ssa.Function{fn}, m.helpersOf(fn)...)
+		for _, f := range fam {
+			for _, b := range f.Blocks {
+				for _, ins := range b.Instrs {
+					if call, ok := ins.(*ssa.Call); ok && call.Call.IsInvoke() && call.Call.Method.Name() == "QuietSearch" {
+						ab = fn
+					}
+				}
+			}
+		}
+	}
 	if ab == nil {
-		r.Undecided("R13-window", "leaf window", "", "", "runAlphaBeta.search not found")
+		r.Undecided("R13-window", "leaf window", "", "", "no recursive windowed search that calls a QuietSearch at its leaves found")
 		return
 	}
+	alphaN, betaN, _ := scoreParams(ab)
 	paths, und := m.paths(ab)
 	if und != "" {
 		r.Undecided("R13-window", "leaf search receives the current window", c.pos(ab.Pos()), "", und)
@@ -123,7 +142,7 @@ func c13Window(c *Ctx, m *searchModel) {
 						al, _ := structField(cell, "Alpha")
 						be, _ := structField(cell, "Beta")
 						n++
-						if vstrOf(al) != "alpha" || vstrOf(be) != "beta" {
+						if vstrOf(al) != alphaN || vstrOf(be) != betaN {
 							bad = fmt.Sprintf("leaf search gets the window (%s, %s) instead of the node's (alpha, beta)", vstrOf(al), vstrOf(be))
 						}
 					}
@@ -140,16 +159,7 @@ func c13Window(c *Ctx, m *searchModel) {
 func c13FailHard(c *Ctx, m *searchModel, rec []*ssa.Function) {
 	r := c.R
 	for _, fn := range rec {
-		var alphaP, betaP string
-		for _, p := range fn.Params {
-			if n := namedOf(p.Type()); n != nil && n.Obj().Name() == "Score" {
-				if alphaP == "" {
-					alphaP = p.Name()
-				} else if betaP == "" {
-					betaP = p.Name()
-				}
-			}
-		}
+		alphaP, betaP, _ := scoreParams(fn)
 		if alphaP == "" {
 			continue // plain minimax has no window
 		}
